@@ -20,6 +20,7 @@ Level of detail
 No Mathlib import: this file is linked into the native driver.
 -/
 import Ymq.Model.PolySpec
+import Ymq.Model.FInt
 import Ymq.Gen.Params
 
 namespace Ymq.Kronecker
@@ -118,6 +119,13 @@ def cycExact (N : Nat) (x y : Array Nat) : Option (Array Nat) :=
   else if l = 0 ∨ l ≠ 2 ^ l.log2 then none
   else if l > 256 * N then none
   else some (Array.ofFn (n := l) fun i => cycCoef l (coef x) (coef y) i.val % (W ^ N + 1))
+
+/-- the transform product as the code forms it: every packed word vector becomes an `FInt<N>` with
+top word 0 (`vp[i].0[..] = …` on `FInt::default()`), `mulfft` (word-level model of Ymq/Model/FInt.lean),
+and the `N` words + top word of every result entry read back as an integer -/
+def cycFft (N : Nat) (x y : Array Nat) : Option (Array Nat) :=
+  (Ymq.FInt.mulfft N (x.toList.map fun v => ⟨Ymq.Limbs.ofNat N v, 0⟩)
+    (y.toList.map fun v => ⟨Ymq.Limbs.ofNat N v, 0⟩)).map fun l => (l.map Ymq.FInt.FI.value).toArray
 
 /-- `convolve_modn`: the dispatch table (regenerated from the source in `Ymq.Gen.Params`) followed
 by `assert!(zn.n.bits() <= 500)` and the call of `_convolve_modn::<N>` -/
